@@ -12,7 +12,7 @@ LEVEL_TEXT = ("Static structural proof of necessary conditions: (R19.1) the port
               "the same function; (R19.3) functions that write into the cache are reachable only from inside a "
               "`with CacheLock(...)` body; (R19.4) no `except A or B` handler. Mutual exclusion and crash "
               "consistency as properties of executions, timeouts and refresh intervals are NOT decided.")
-LEVEL_EXTRA = 'Added after the seeded evaluation: (R19.2) the temporary name cannot equal the final name (callers pass a temporary file); (R19.5) the lock file is never removed or renamed; (R19.6) a lock body that fetches from the network keeps write_time on. (R19.7) looking up a version that is missing from the cache folder (re)runs the local population. (R19.8) only time-recording holders are refused inside the refresh interval; (R19.9) the last-refresh time is read while the lock is held. (R19.10) the lock path is a path join under the folder; (R19.11) an existing cached file is returned only under a comparison with its computed hash.'
+LEVEL_EXTRA = 'Added after the seeded evaluation: (R19.2) the temporary name cannot equal the final name (callers pass a temporary file); (R19.5) the lock file is never removed or renamed; (R19.6) a lock body that fetches from the network keeps write_time on. (R19.7) looking up a version that is missing from the cache folder (re)runs the local population. (R19.8) only time-recording holders are refused inside the refresh interval; (R19.9) the last-refresh time is read while the lock is held. (R19.10) the lock path is a path join under the folder; (R19.11) an existing cached file is returned only under a comparison with its computed hash. (R19.12) the version-file pattern is anchored at its end wherever it is applied with match/search.'
 
 MODULES = ["hed.schema.hed_cache", "hed.schema.hed_cache_lock"]
 HANDLER_MODULES = MODULES + ["hed.schema.hed_schema_io", "hed.schema.schema_io.schema_util"]
@@ -402,3 +402,42 @@ def run(ctx):
                   "the cached file is returned on a path that does not compare its hash with the published one: a torn or stale file "
                   "under the final name is never replaced by a refresh", desc="existing file returned only when its hash matches")
     ctx.floor("R19.11", "returns of the existing file in _cache_hed_version", n_ret, 1)
+
+    # ---------------- R19.12: only a complete file name counts as a cached version
+    ctx.rule("R19.12", "the pattern that recognises cached version files is anchored at its end (or applied with fullmatch)")
+    hc = prog.find_module("hed.schema.hed_cache")
+    consts = {}
+    for st in hc.tree.body:
+        if isinstance(st, ast.Assign) and len(st.targets) == 1 and isinstance(st.targets[0], ast.Name):
+            def fold19(e):
+                if isinstance(e, ast.Constant) and isinstance(e.value, str):
+                    return e.value
+                if isinstance(e, ast.Name):
+                    return consts.get(e.id)
+                if isinstance(e, ast.BinOp) and isinstance(e.op, ast.Add):
+                    a_, b_ = fold19(e.left), fold19(e.right)
+                    return None if a_ is None or b_ is None else a_ + b_
+                if isinstance(e, ast.Call) and call_name(e) == "compile" and e.args:
+                    return fold19(e.args[0])
+                return None
+            val = fold19(st.value)
+            if val is not None:
+                consts[st.targets[0].id] = val
+    n_pat19 = 0
+    import re._parser as _sre
+    from re._constants import AT, AT_END, AT_END_STRING
+    for f in prog.functions.values():
+        if f.module is not hc:
+            continue
+        for c in walk_no_nested(f.node):
+            if isinstance(c, ast.Call) and isinstance(c.func, ast.Attribute) and c.func.attr in ("match", "search", "fullmatch") \
+                    and isinstance(c.func.value, ast.Name) and c.func.value.id in consts and "version" in c.func.value.id.lower():
+                n_pat19 += 1
+                ctx.saw(f)
+                parsed = list(_sre.parse(consts[c.func.value.id]))
+                ok = c.func.attr == "fullmatch" or (bool(parsed) and parsed[-1][0] is AT and parsed[-1][1] in (AT_END, AT_END_STRING))
+                ctx.check(ok, "R19.12", f.qualname, c, loc(f, c),
+                          "`%s.%s` accepts a name that merely starts like a version file: a temporary file left by an interrupted "
+                          "population (`HED8.3.0.xml.<pid>.tmp`) counts as version 8.3.0, so the version is believed cached and the "
+                          "load fails with fileNotFound" % (c.func.value.id, c.func.attr), desc="%s: version pattern anchored at the end" % f.short)
+    ctx.floor("R19.12", "uses of the version-file pattern", n_pat19, 2)
